@@ -131,7 +131,8 @@ def limitsOf (kv : Kv) : Option Spec.Limits := do
   let wsa ← kv.bool "wsa"
   let sia ← kv.bool "sia"
   let ssa ← kv.bool "ssa"
-  pure { maximumQos := mq, maximumPacketSize := mps, retainAvailable := ra.getD true,
+  let csei ← kv.numD "csei" 0
+  pure { connectSessionExpiry := csei, maximumQos := mq, maximumPacketSize := mps, retainAvailable := ra.getD true,
          wildcardAvailable := wsa.getD true, subIdAvailable := sia.getD true, sharedAvailable := ssa.getD true }
 
 /-- `spec.valid <limits> | <packet>`: static and dynamic validity per the standard -/
@@ -143,7 +144,7 @@ def cmdSpecValid (head payload : String) : String :=
       | .publish x => (Spec.publishStaticOk x, Spec.publishDynamicOk l x)
       | .subscribe x => (Spec.subscribeStaticOk x, Spec.subscribeDynamicOk l x)
       | .unsubscribe x => (Spec.unsubscribeStaticOk x, Spec.unsubscribeDynamicOk l x)
-      | .disconnect x => (Spec.disconnectStaticOk x, true)
+      | .disconnect x => (Spec.disconnectStaticOk x, Spec.disconnectDynamicOk l x)
       | .connect x => (Spec.connectStaticOk x, true)
       | _ => (true, true)
     s!"res=ok static={b01 st} dynamic={b01 dy}"
